@@ -176,7 +176,7 @@ def TypedKVs (sprops : List (Str × PS)) (addl : Option PS) (kvs : List (Str × 
     | some ps => tagOK ps.t kv.2 = true
     | none => match addl with
       | some a => tagOK a.t kv.2 = true
-      | none => True
+      | none => False      -- a key that is neither declared nor covered by additionalProperties is never in the result
 
 theorem makeObject_typed (props : List (Str × Str)) (sprops : List (Str × PS)) (addl : Option PS) (res : List (Str × PV))
     (hnd : (sprops.map Prod.fst).Nodup) (h : makeObject parsePrim props sprops addl = some res) :
@@ -470,12 +470,18 @@ def leafWF : Leaf → Prop
   | _ => True
 
 def TypedVal : Leaf → Val → Prop
+  | _, .nil => True
+  | _, .nilObj => True
   | .prim ps, .prim v => tagOK ps.t v = true
-  | .arr items _ _ _, .arr xs => ∀ x ∈ xs, tagOK items.t x = true
-  | .obj sprops _ addl, .obj kvs => TypedKVs sprops addl kvs
-  | .deep sprops _, .dobj kvs => ∀ kv ∈ kvs, ∃ ds, (kv.1, ds) ∈ sprops ∧ TypedDV ds kv.2
   | .untyped _, .prim v => ∀ i, v ≠ .int32 i
-  | _, _ => True
+  | _, .prim _ => False                       -- only a primitive (or untyped) schema yields a primitive
+  | .arr items _ _ _, .arr xs => ∀ x ∈ xs, tagOK items.t x = true
+  | _, .arr _ => False                        -- only an array schema yields an array
+  | .obj sprops _ addl, .obj kvs => TypedKVs sprops addl kvs
+  | .deep _ _, .obj _ => True                 -- a nested schema outside style deepObject (the model's `[] none` stand-in)
+  | _, .obj _ => False
+  | .deep sprops _, .dobj kvs => ∀ kv ∈ kvs, ∃ ds, (kv.1, ds) ∈ sprops ∧ TypedDV ds kv.2
+  | _, .dobj _ => False
 
 theorem visitLeaf_eq (l : Leaf) (v : Val) (hwf : leafWF l) (hg : leafEnumGoType l = false) (ht : TypedVal l v) :
     visitLeaf enumHitImpl deepEqImpl l v = visitLeaf enumHitSpec enumHitSpec l v := by
@@ -784,16 +790,21 @@ theorem cookieObj_typed (b : Bool) (st : Sty) (ex : Bool) (r : Req) (sprops : Li
     | none => exact typed_nilObj _
     | some raw => exact objOut_typed _ _ _ _ _ _ _ hnd
 
-/-- a `.deep` leaf meets only `.dobj`, `.obj`, `nil` values; anything that is not `.dobj` is trivially typed -/
-theorem typed_deep_other (sprops : List (Str × DS)) (rq : List Str) (v : Val) (h : ∀ kvs, v ≠ .dobj kvs) : TypedVal (.deep sprops rq) v := by
-  cases v <;> simp [TypedVal]
-  exact absurd rfl (h _)
+/-- a value that is neither a nested object nor an array -/
+def valShapeObj (v : Val) : Prop := (∀ kvs, v ≠ .dobj kvs) ∧ (∀ xs, v ≠ .arr xs) ∧ (∀ pv, v ≠ .prim pv)
 
-theorem objOut_not_dobj (prim : PT → Str → PR) (f : Bool) (src pd vd : Str) (sp : List (Str × PS)) (ad : Option PS) (kvs : List (Str × DV)) :
-    (objOut prim f src pd vd sp ad).val ≠ .dobj kvs := by
+/-- a `.deep` leaf meets only `.dobj`, `.obj`, `nil` values; anything that is not `.dobj` / `.arr` is trivially typed -/
+theorem typed_deep_other (sprops : List (Str × DS)) (rq : List Str) (v : Val) (h : valShapeObj v) : TypedVal (.deep sprops rq) v := by
+  cases v <;> simp [TypedVal]
+  · exact absurd rfl (h.2.2 _)
+  · exact absurd rfl (h.2.1 _)
+  · exact absurd rfl (h.1 _)
+
+theorem objOut_shapeOK (prim : PT → Str → PR) (f : Bool) (src pd vd : Str) (sp : List (Str × PS)) (ad : Option PS) :
+    valShapeObj (objOut prim f src pd vd sp ad).val := by
   unfold objOut
   repeat' split
-  all_goals simp
+  all_goals simp [valShapeObj]
 
 theorem decodeLeaf_typed (fl : Flavour) (hp : fl.prim = parsePrim) (c : Cell) (name : Str) (r : Req) (l : Leaf) (hwf : leafWF l) :
     TypedVal l (decodeLeaf fl c name r l).val := by
@@ -869,20 +880,18 @@ theorem decodeLeaf_typed (fl : Flavour) (hp : fl.prim = parsePrim) (c : Cell) (n
           | some raw => exact hstr _ _
     · exact typed_nil _
   | deep sprops rq =>
-    have hobj : ∀ (l' : Leaf) (v : Val), TypedVal l' v → (∀ kvs, v ≠ .dobj kvs) → TypedVal (.deep sprops rq) v :=
-      fun _ v _ h => typed_deep_other sprops rq v h
     cases loc <;> cases st <;> simp only [decodeLeaf, hp]
     all_goals first
       | exact queryDeep_typed name _ sprops rq
       | exact typed_nilObj _
-      | (apply typed_deep_other; intro kvs; unfold pathObj; repeat' split
-         all_goals first | exact objOut_not_dobj _ _ _ _ _ _ _ _ | simp [badMethodObj, absentObj])
-      | (apply typed_deep_other; intro kvs; unfold headerObj; repeat' split
-         all_goals first | exact objOut_not_dobj _ _ _ _ _ _ _ _ | simp [badMethodObj, absentObj])
-      | (apply typed_deep_other; intro kvs; unfold cookieObj; repeat' split
-         all_goals first | exact objOut_not_dobj _ _ _ _ _ _ _ _ | simp [badMethodObj, absentObj])
-      | (apply typed_deep_other; intro kvs; unfold queryObj; simp only []; repeat' split
-         all_goals simp [badMethodObj, absentObj])
+      | (apply typed_deep_other; unfold pathObj; repeat' split
+         all_goals first | exact objOut_shapeOK _ _ _ _ _ _ _ | simp [valShapeObj, badMethodObj, absentObj])
+      | (apply typed_deep_other; unfold headerObj; repeat' split
+         all_goals first | exact objOut_shapeOK _ _ _ _ _ _ _ | simp [valShapeObj, badMethodObj, absentObj])
+      | (apply typed_deep_other; unfold cookieObj; repeat' split
+         all_goals first | exact objOut_shapeOK _ _ _ _ _ _ _ | simp [valShapeObj, badMethodObj, absentObj])
+      | (apply typed_deep_other; unfold queryObj; simp only []; repeat' split
+         all_goals simp [valShapeObj, badMethodObj, absentObj])
 
 /-! ### schemas without any enum: validation does not depend on how enums compare, whatever the value -/
 
@@ -1198,5 +1207,200 @@ theorem buildProps_none_present (prim : PT → Str → PR) (props : List (Str ×
       simp only [hasKey, List.any_cons, Bool.or_eq_true, not_or] at this
       simpa [hasKey] using this.2
     simp [buildProps, lookupLast_none_of_not_hasKey k props hk, buildProps_none_present prim props rest hrest]
+
+/-! ### compositions with enums: a value read by one alternative, validated against another -/
+
+def pvNo32 (v : PV) : Prop := ∀ i, v ≠ .int32 i
+def pvNoInt (v : PV) : Prop := (∀ i, v ≠ .int i) ∧ (∀ i, v ≠ .int32 i)
+
+def valNo32 : Val → Prop
+  | .prim v => pvNo32 v
+  | .arr xs => ∀ x ∈ xs, pvNo32 x
+  | .obj kvs => ∀ kv ∈ kvs, pvNo32 kv.2
+  | _ => True
+
+def valNoIntItems : Val → Prop
+  | .arr xs => ∀ x ∈ xs, pvNoInt x
+  | _ => True
+
+def leafIsDeep : Leaf → Bool
+  | .deep _ _ => true
+  | _ => false
+
+theorem enumHit_eq_of_no32 (e : EV) (v : PV) (h : pvNo32 v) : enumHitImpl e v = enumHitSpec e v := by
+  cases e <;> cases v <;> simp_all [enumHitImpl, enumHitSpec, pvNo32]
+
+theorem visitPS_eq' (ps : PS) (v : PV) (h : pvNo32 v ∨ psHasEnum ps = false) :
+    visitPS enumHitImpl ps v = visitPS enumHitSpec ps v := by
+  rcases h with h | h
+  · simp [visitPS, enumHit_eq_of_no32 _ v h]
+  · have : ps.enum.isEmpty = true := by simpa [psHasEnum] using h
+    simp [visitPS, this]
+
+theorem listEq_eq_noInt : ∀ (es : List EV) (xs : List PV), (∀ x ∈ xs, pvNoInt x) → listEq deepEqImpl es xs = listEq enumHitSpec es xs
+  | [], [], _ => rfl
+  | [], _ :: _, _ => rfl
+  | _ :: _, [], _ => rfl
+  | e :: es, x :: xs, h => by
+    have hx := h x (by simp)
+    have : deepEqImpl e x = enumHitSpec e x := by
+      cases e <;> cases x <;> simp_all [deepEqImpl, enumHitSpec, pvNoInt]
+    simp [listEq, this, listEq_eq_noInt es xs (fun y hy => h y (by simp [hy]))]
+
+/-- validation of any value against a non-nested leaf does not depend on how enums compare, as soon as the value
+holds no int32 (or the leaf has no enum) and — for an array enum — no integer items -/
+theorem visitLeaf_eq_val (l : Leaf) (v : Val) (hnd : leafIsDeep l = false)
+    (hps : valNo32 v ∨ leafHasEnum l = false) (harr : leafArrEnum l = false ∨ valNoIntItems v) :
+    visitLeaf enumHitImpl deepEqImpl l v = visitLeaf enumHitSpec enumHitSpec l v := by
+  cases l with
+  | deep sp rq => simp [leafIsDeep] at hnd
+  | prim ps =>
+    cases v <;> try rfl
+    next pv =>
+      apply visitPS_eq'
+      rcases hps with h | h
+      · exact Or.inl h
+      · exact Or.inr (by simpa [leafHasEnum] using h)
+  | untyped en =>
+    cases v <;> try rfl
+    next pv =>
+      rcases hps with h | h
+      · simp [visitLeaf, enumHit_eq_of_no32 _ pv h]
+      · have : en.isEmpty = true := by simpa [leafHasEnum] using h
+        simp [visitLeaf, this]
+  | arr items mn mx en =>
+    cases v <;> try rfl
+    next xs =>
+      have hitems : xs.all (visitPS enumHitImpl items) = xs.all (visitPS enumHitSpec items) := by
+        apply all_congr'
+        intro x hx
+        apply visitPS_eq'
+        rcases hps with h | h
+        · exact Or.inl (h x hx)
+        · exact Or.inr (by simpa [leafHasEnum] using h)
+      have henum : (en.isEmpty || en.any (fun es => listEq deepEqImpl es xs)) = (en.isEmpty || en.any (fun es => listEq enumHitSpec es xs)) := by
+        rcases harr with h | h
+        · have : en.isEmpty = true := by simpa [leafArrEnum] using h
+          simp [this]
+        · congr 1
+          exact any_congr' _ _ en (fun es _ => listEq_eq_noInt es xs h)
+      simp only [visitLeaf, hitems, henum]
+  | obj sprops rq addl =>
+    cases v <;> try rfl
+    next kvs =>
+      simp only [visitLeaf]
+      congr 1
+      apply all_congr'
+      intro kv hkv
+      cases hl : sprops.lookup kv.1 with
+      | some ps =>
+        simp only
+        apply visitPS_eq'
+        rcases hps with h | h
+        · exact Or.inl (h kv hkv)
+        · refine Or.inr ?_
+          simp only [leafHasEnum, Bool.or_eq_false_iff] at h
+          exact any_false_mem _ sprops h.1 (kv.1, ps) (lookup_some_mem kv.1 ps sprops hl)
+      | none =>
+        simp only
+        cases addl with
+        | none => rfl
+        | some a =>
+          simp only
+          apply visitPS_eq'
+          rcases hps with h | h
+          · exact Or.inl (h kv hkv)
+          · refine Or.inr ?_
+            simp only [leafHasEnum, Bool.or_eq_false_iff] at h
+            exact h.2
+
+theorem tag_no32 (t : PT) (v : PV) (ht : tagOK t v = true) (h : t ≠ .int32) : pvNo32 v := by
+  intro i e; subst e
+  cases t <;> simp_all [tagOK]
+
+theorem tag_noInt (t : PT) (v : PV) (ht : tagOK t v = true) (h : psIsInt { t := t } = false) : pvNoInt v := by
+  constructor <;> intro i e <;> subst e <;> cases t <;> simp_all [tagOK, psIsInt]
+
+/-- a value read by a leaf that has no int32 type holds no int32 -/
+theorem typed_no32 (l : Leaf) (v : Val) (hnd : leafIsDeep l = false) (ht : TypedVal l v) (h32 : leafHasInt32 l = false) : valNo32 v := by
+  cases l with
+  | deep sp rq => simp [leafIsDeep] at hnd
+  | prim ps =>
+    cases v <;> simp only [valNo32, TypedVal] at ht ⊢ <;> try (first | trivial | cases ht)
+    next pv => exact tag_no32 ps.t pv ht (by simpa [leafHasInt32] using h32)
+  | untyped en =>
+    cases v <;> simp only [valNo32, TypedVal] at ht ⊢ <;> first | trivial | cases ht | exact ht
+  | arr items mn mx en =>
+    cases v <;> simp only [valNo32, TypedVal] at ht ⊢ <;> try (first | trivial | cases ht)
+    next xs => exact fun x hx => tag_no32 items.t x (ht x hx) (by simpa [leafHasInt32] using h32)
+  | obj sprops rq addl =>
+    cases v <;> simp only [valNo32, TypedVal] at ht ⊢ <;> try (first | trivial | cases ht)
+    next kvs =>
+      simp only [leafHasInt32, Bool.or_eq_false_iff] at h32
+      intro kv hkv
+      have hk := ht kv hkv
+      cases hl : sprops.lookup kv.1 with
+      | some ps =>
+        simp only [hl] at hk
+        have := any_false_mem _ sprops h32.1 (kv.1, ps) (lookup_some_mem kv.1 ps sprops hl)
+        exact tag_no32 ps.t kv.2 hk (by simpa using this)
+      | none =>
+        simp only [hl] at hk
+        cases addl with
+        | none => cases hk
+        | some a =>
+          simp only at hk h32
+          exact tag_no32 a.t kv.2 hk (by simpa using h32.2)
+
+/-- an array value comes from an array leaf; if that leaf's items are not integers, no item is an integer -/
+theorem typed_noIntItems (l : Leaf) (v : Val) (ht : TypedVal l v) (hai : leafArrInt l = false) : valNoIntItems v := by
+  cases v <;> simp only [valNoIntItems]
+  next xs =>
+    cases l <;> simp only [TypedVal] at ht <;> try (cases ht)
+    next items mn mx en =>
+      intro x hx
+      exact tag_noInt items.t x (ht x hx) (by simpa [leafArrInt, psIsInt] using hai)
+
+/-- the value of a composition loop is nil or the value some alternative's decoder returned -/
+def FromLeaf (f : Leaf → Out) (L : List Leaf) (v : Val) : Prop := v = .nil ∨ ∃ l ∈ L, v = (f l).val
+
+theorem decAllOf_val (f : Leaf → Out) (L : List Leaf) : ∀ (ls : List Leaf) (fnd : Bool) (last : Out),
+    (∀ l ∈ ls, l ∈ L) → FromLeaf f L last.val → FromLeaf f L (decAllOf f ls fnd last).val
+  | [], _, _, _, h => h
+  | l :: rest, fnd, last, hs, _ => by
+    have hl : FromLeaf f L (f l).val := Or.inr ⟨l, hs l (by simp), rfl⟩
+    simp only [decAllOf]
+    split
+    · exact hl
+    · exact decAllOf_val f L rest _ _ (fun x hx => hs x (by simp [hx])) hl
+
+theorem decAnyOf_val (f : Leaf → Out) (L : List Leaf) (req : Bool) : ∀ (ls : List Leaf) (fnd : Bool),
+    (∀ l ∈ ls, l ∈ L) → FromLeaf f L (decAnyOf f req ls fnd).val
+  | [], _, _ => Or.inl rfl
+  | l :: rest, fnd, hs => by
+    simp only [decAnyOf]
+    split
+    · exact Or.inr ⟨l, hs l (by simp), rfl⟩
+    · exact decAnyOf_val f L req rest _ (fun x hx => hs x (by simp [hx]))
+
+theorem decOneOf_val (f : Leaf → Out) (L : List Leaf) (req : Bool) : ∀ (ls : List Leaf) (fnd : Bool) (cur : Option Val),
+    (∀ l ∈ ls, l ∈ L) → (∀ v, cur = some v → FromLeaf f L v) → FromLeaf f L (decOneOf f req ls fnd cur).val
+  | [], _, some v, _, h => h v rfl
+  | [], _, none, _, _ => Or.inl rfl
+  | l :: rest, fnd, cur, hs, h => by
+    simp only [decOneOf]
+    apply decOneOf_val f L req rest _ _ (fun x hx => hs x (by simp [hx]))
+    intro v hv
+    split at hv
+    · cases hv; exact Or.inr ⟨l, hs l (by simp), rfl⟩
+    · exact h v hv
+
+theorem decodeValue_val (fl : Flavour) (c : Cell) (name : Str) (req : Bool) (r : Req) (s : Sch) :
+    FromLeaf (decodeLeaf fl c name r) (schLeaves s) (decodeValue fl c name req r s).val := by
+  cases s with
+  | leaf l => exact Or.inr ⟨l, by simp [schLeaves], rfl⟩
+  | allOf ls => exact decAllOf_val _ _ ls _ _ (fun _ h => h) (Or.inl rfl)
+  | anyOf ls => exact decAnyOf_val _ _ _ ls _ (fun _ h => h)
+  | oneOf ls => exact decOneOf_val _ _ _ ls _ _ (fun _ h => h) (by intro v hv; cases hv)
 
 end KinModel.Style
